@@ -15,7 +15,8 @@ from mc import env, mibspec, pysnmp_rec, refir
 from mc.checks import C03
 
 BOUNDS = {
-    'quick': 'sequences <=2 over 13 kinds; cross-module: 10 symbol kinds x 3 name styles; 14 adversarial identifiers x 5 kinds',
+    'quick': 'sequences <=2 over 13 kinds; cross-module: 10 symbol kinds x 3 name styles; 14 adversarial identifiers x 5 kinds; '
+             '27 text slots x 17 adversarial texts x genTexts on/off',
     'thorough': 'sequences <=3 over 13 kinds (real MibBuilder load for all); cross-module pairs of uses',
 }
 ASSUMPTIONS = ['real pysnmp 7.1 MibBuilder with its own base modules is the "MIB builder" the generated code targets',
@@ -316,4 +317,54 @@ class TypeChains(object):
         return check_set([mod], ['TEST-MIB'], 'C04|type-chain|tc=%s|alpha-at=%d' % (case['tc'], alpha))
 
 
-FAMILIES = [Sequences(), CrossModule(), Identifiers(), TypeChains()]
+class Texts(object):
+    name = 'texts-in-literals'
+    describe = ('every text-bearing clause slot of C15 (DESCRIPTION / REFERENCE of each clause kind, ORGANIZATION, CONTACT-INFO, '
+                'UNITS, DISPLAY-HINT, PRODUCT-RELEASE, revision descriptions) x adversarial texts (backslash sequences, trailing '
+                'backslash, line breaks, apostrophes, template syntax, non-ASCII, empty) x genTexts on/off: the module is valid '
+                'Python, executes with loadTexts on and off, and the real MibBuilder loads it')
+
+    def blocks(self, tier):
+        from mc.checks import C15
+        return [{'slot': i} for i in range(len(C15.SLOTS))]
+
+    def cases(self, block, tier):
+        from mc.checks import C15
+        for t, (tname, text) in enumerate(C15.TEXTS):
+            if tier != 'thorough' and tname in ('word', 'double-space', 'long-word', 'long-sentence', 'long-hyphenated', 'tab'):
+                continue
+            for gt in (0, 1):
+                yield {'slot': block['slot'], 't': t, 'gt': gt}
+
+    def run_case(self, case):
+        from mc.checks import C15
+        sid, kind, field, jkey, pacc, gated = C15.SLOTS[case['slot']]
+        tname, text = C15.TEXTS[case['t']]
+        mod = refir.finish_module({'name': 'TEST-MIB', 'decls': C15.build(kind, field, text)})
+        src = mibspec.pretty([mod])
+        sig = 'C04|texts|%s|%s|genTexts=%d' % (sid, tname, case['gt'])
+        parser = env.shared_parser('smiV1Relaxed' if kind == 'trap' else 'smiV2')
+        parser.reset()
+        res, written = env.compile_set({'TEST-MIB': src}, ['TEST-MIB'], codegen='pysnmp', dialect=parser,
+                                       genTexts=bool(case['gt']))
+        st = res.get('TEST-MIB')
+        if st != 'compiled':
+            return 'notcompiled', [('%s|not-compiled' % sig, '%r %r\n%s' % (st, getattr(st, 'error', None), src))], 1
+        code = written['TEST-MIB']
+        try:
+            compile(code, 'TEST-MIB', 'exec')
+        except SyntaxError as exc:
+            return 'invalid', [('%s|not-valid-python' % sig, 'line %s: %s\nsource text %r' % (exc.lineno, exc.msg, text))], 1
+        vs = []
+        for lt in (True, False):
+            ns, err = pysnmp_rec.run_module(code, pysnmp_rec.RecBuilder(loadTexts=lt), 'TEST-MIB')
+            if err:
+                vs.append(('%s|does-not-execute|loadTexts=%s|%s' % (sig, lt, err.split(':')[0]), '%s\nsource text %r' % (err, text)))
+        if not vs:
+            err, syms = pysnmp_rec.real_load({'TEST-MIB': code})
+            if err:
+                vs.append(('%s|real-builder-load-fails|%s' % (sig, err.split(':')[0]), '%s\nsource text %r' % (err, text)))
+        return 'ok', vs, 1
+
+
+FAMILIES = [Sequences(), CrossModule(), Identifiers(), TypeChains(), Texts()]
